@@ -4,6 +4,7 @@ package verifsim
 
 import (
 	"bytes"
+	"compress/gzip"
 	"encoding/json"
 	"fmt"
 	"io"
@@ -18,6 +19,7 @@ import (
 	"github.com/facebookgo/inject"
 	"github.com/facebookgo/startstop"
 	"github.com/jonboulle/clockwork"
+	"github.com/klauspost/compress/zstd"
 	"github.com/vmihailenco/msgpack/v5"
 	"go.opentelemetry.io/otel/trace"
 	"go.opentelemetry.io/otel/trace/noop"
@@ -404,6 +406,12 @@ func (w *worldB) honeycomb(rec *NetRec, req *http.Request) *SimResp {
 		case "timeout":
 			w.out.Fault("auth_timeout")
 			return &SimResp{Hang: true}
+		case "slow":
+			// answers, but only after a while: the request that asked is in progress
+			// (holding what it has read) while other requests come and go
+			w.out.Fault("auth_slow")
+			b, _ := json.Marshal(map[string]any{"id": "keyid1", "team": map[string]string{"slug": "t"}, "environment": map[string]string{"slug": "env1", "name": "env1"}, "api_key_access": map[string]bool{"events": true}})
+			return &SimResp{Status: 200, Header: http.Header{"Content-Type": {"application/json"}}, Body: b, Delay: 150 * time.Millisecond}
 		}
 		b, _ := json.Marshal(map[string]any{"id": "keyid1", "team": map[string]string{"slug": "t"}, "environment": map[string]string{"slug": "env1", "name": "env1"}, "api_key_access": map[string]bool{"events": true}})
 		return &SimResp{Status: 200, Header: http.Header{"Content-Type": {"application/json"}}, Body: b}
@@ -559,11 +567,23 @@ type bRequest struct {
 	events   []*bEvent
 	bodyErr  bool // the client disconnects while the body is read
 	garbage  bool // malformed body
+	compress string // "" | zstd | zstd_bad (compressed body that does not decode) | gzip
 	// results
 	resp     *respRec
 	finished bool
 	sentAt   time.Duration
 }
+
+// the clients' zstd encoder: created (and used once) outside any bubble; EncodeAll
+// with concurrency 1 starts no goroutine
+var simZstdEnc = func() *zstd.Encoder {
+	e, err := zstd.NewWriter(nil, zstd.WithEncoderConcurrency(1))
+	if err != nil {
+		panic(err)
+	}
+	e.EncodeAll([]byte("warm"), nil)
+	return e
+}()
 
 type errReader struct{ r io.Reader }
 
@@ -616,12 +636,29 @@ func (r *bRequest) build() *http.Request {
 	if r.endpoint == "event" {
 		path = "/1/events/"
 	}
+	cenc := ""
+	switch r.compress {
+	case "zstd":
+		body, cenc = simZstdEnc.EncodeAll(body, nil), "zstd"
+	case "zstd_bad":
+		body, cenc = simZstdEnc.EncodeAll(body, nil), "zstd"
+		body = append(body[:len(body)/2], 0xff, 0x00, 0xff) // cut short and spoilt
+	case "gzip":
+		var zb bytes.Buffer
+		zw := gzip.NewWriter(&zb)
+		zw.Write(body)
+		zw.Close()
+		body, cenc = zb.Bytes(), "gzip"
+	}
 	var rd io.ReadCloser = io.NopCloser(bytes.NewReader(body))
 	if r.bodyErr {
 		rd = &errReader{r: bytes.NewReader(body[:len(body)/2])}
 	}
 	req, _ := http.NewRequest("POST", "http://refinery.sim"+path+r.dataset, rd)
 	req.Header.Set("Content-Type", ctype)
+	if cenc != "" {
+		req.Header.Set("Content-Encoding", cenc)
+	}
 	req.Header.Set("X-Honeycomb-Team", r.apiKey)
 	req.Header.Set("User-Agent", "sim-sdk/1")
 	if r.endpoint == "event" {
